@@ -77,7 +77,7 @@ IDENT_CHARS = "abcxyzABC_0123456789"
 
 
 def ident(rng):
-    s = rng.choice(IDENT_START) + "".join(rng.choice(IDENT_CHARS) for _ in range(rng.randint(0, 4)))
+    s = rng.choice(IDENT_START) + "".join(rng.choice(IDENT_CHARS) for _ in range(rng.randint(0, 4) if rng.random() < 0.9 else rng.randint(17, 90)))
     if rng.random() < 0.05:
         s += "٣"  # ARABIC-INDIC DIGIT THREE: \d is Unicode aware
     return s
@@ -180,6 +180,12 @@ class C13(Property):
         ill_a = [None, None, None, "undeclared", "arg_after_att", "syntax"]
         for i in range(k):
             n, atts = gen.random_framework(rng, 7)
+            if i % 40 == 11:
+                # large files: 100-1200 arguments (three- and four-digit indices, many lines), a hub with many attacks
+                n = rng.randint(100, 1200)
+                atts = [(rng.randrange(n), rng.randrange(n)) for _ in range(rng.randint(70, 400))]
+                hub = rng.randrange(n)
+                atts += [(rng.randrange(n), hub) for _ in range(rng.randint(20, 80))]
             if rng.random() < 0.2 and atts:
                 atts = atts + [rng.choice(atts)]
             fmt = "iccma" if i % 2 == 0 else "apx"
